@@ -37,6 +37,8 @@
 (*                         the second way damage puts the marker in the     *)
 (*                         reader's way                                     *)
 (*   MC_Stale_repair.cfg   all kinds, ClearBehind = TRUE: NoSplice holds    *)
+(*   MC_Stale_M124.cfg     {"type"} with EndOnBadHeader = TRUE (the reader  *)
+(*                         of seeded changes M124 / M141): VIOLATED         *)
 (* The harness experiment `damage --dmgcrash` replays the same histories on *)
 (* the real code, aimed so that the spliced entry also decodes.             *)
 (***************************************************************************)
@@ -48,6 +50,8 @@ CONSTANTS B,            \* cells per block (header = 1 cell)
           MaxAppends, MaxCrashes, MaxDamage,
           DamageKinds,  \* subset of {"zero", "type", "crc", "len"}
           PayZero,      \* subset of BOOLEAN: may a payload consist of zero bytes
+          EndOnBadHeader, \* FALSE: the code. TRUE: a reader that takes an invalid header for the end of the log
+                          \* (seeded changes M124 - zero type byte - and M141 - header of 0xFF bytes)
           ClearBehind   \* open zeroes everything behind the point where the writer resumes
 
 N == B * NBlocks
@@ -104,6 +108,7 @@ ReadLoop(c, cur, within, buf, out) ==
   ELSE LET x == c[cur]
            nextBlock == (cur \div B + 1) * B
        IN IF x.k = "Z" \/ (x.k = "P" /\ x.c = 1) THEN [out |-> out, pos |-> cur]          \* zero bytes where a header is expected: the log ends
+          ELSE IF x.k = "X" /\ EndOnBadHeader THEN [out |-> out, pos |-> cur]
           ELSE IF x.k # "H" \/ (cur % B) + 1 + x.n > B
                THEN ReadLoop(c, nextBlock, FALSE, <<>>, out)                              \* invalid header: rest of the block given up
           ELSE LET crcOk == x.n = x.c /\ \A i \in 1..x.n : c[cur + i].k = "P" /\ c[cur + i].e = x.e /\ c[cur + i].part = x.part /\ c[cur + i].n = i
